@@ -11,7 +11,7 @@ from pbt import core
 from pbt.core import Failure
 
 ID = "C13"
-RULE = ("Lists of 1..N sequences of length 0..M over ACGT, ACTG, ACUG (bit-packed path), ACGTn and amino acids (generic path), and ASCII for "
+RULE = ("Lists of 1..N sequences of length 0..M over ACGT, ACTG, ACUG (bit-packed path), ACGTn, amino acids, the three strand symbols and a two-letter alphabet (generic path), and ASCII for "
         "match_string; always including the possibility of empty rows, rows of length w-1, w and w+1 and a short last row; total letters >= w; "
         "histories of 2..4 calls in one process over alphabets of the same size with the same k (so label tables or lookup tables left by one call cannot serve another alphabet); "
         "in a third of the sampled cases the rows are handed over as a row selection out of a larger, differently ordered collection (a non-contiguous view). "
@@ -29,18 +29,31 @@ ASSUMPTIONS = [
 ]
 REQUIRED_CLASSES = ["w=1", "w-equals-row-length", "w-one-more-than-row", "row-shorter-than-w", "empty-row", "bit-packed", "generic", "k>=16",
                     "minimizers", "match_string", "motif", "count", "view-input", "call-history", "history-same-size-other-alphabet", "motif-alphabet-times-window>256",
-                    "large-input"]
+                    "large-input", "alphabet-of-fewer-than-four-letters"]
 BOUNDS = {"quick": "exhaustive core (<=3 rows, length <=4, two letters, w<=5, all functions); 400 sampled per function family; 24 inputs of 70 000 to 3 000 000 letters",
           "thorough": "exhaustive core; 20000 sampled; 42 inputs of 70 000 to 5 000 000 letters"}
 BUDGET_S = {"quick": 300, "thorough": 1500}
 
-ALPHA = {"ACGT": "ACGT", "ACTG": "ACTG", "ACUG": "ACUG", "ACGTn": "ACGTN", "amino": "ACDEFGHIKLMNPQRSTVWY*"}
-MAXK = {"ACGT": 31, "ACTG": 31, "ACUG": 31, "ACGTn": 27, "amino": 14}
+ALPHA = {"ACGT": "ACGT", "ACTG": "ACTG", "ACUG": "ACUG", "ACGTn": "ACGTN", "amino": "ACDEFGHIKLMNPQRSTVWY*", "strand": "+-.", "two": "AB"}
+MAXK = {"ACGT": 31, "ACTG": 31, "ACUG": 31, "ACGTn": 27, "amino": 14, "strand": 31, "two": 31}
 
 
 def enc_of(name):
     from bionumpy.encodings import alphabet_encoding as ae
-    return {"ACGT": ae.ACGTEncoding, "ACTG": ae.ACTGEncoding, "ACUG": ae.ACUGEncoding, "ACGTn": ae.ACGTnEncoding, "amino": ae.AminoAcidEncoding}[name]
+    if name == "two":
+        return _two_letter_encoding()
+    return {"ACGT": ae.ACGTEncoding, "ACTG": ae.ACTGEncoding, "ACUG": ae.ACUGEncoding, "ACGTn": ae.ACGTnEncoding, "amino": ae.AminoAcidEncoding,
+            "strand": ae.StrandEncoding}[name]
+
+
+_TWO = []
+
+
+def _two_letter_encoding():
+    from bionumpy.encodings import alphabet_encoding as ae
+    if not _TWO:
+        _TWO.append(ae.AlphabetEncoding("AB"))
+    return _TWO[0]
 
 
 def _where(e):
@@ -86,6 +99,8 @@ def classify(case):
         cl.append("motif-alphabet-times-window>256")
     if case["fn"] in ("kmers", "minimizers", "count"):
         cl.append("bit-packed" if len(ALPHA[case["alpha"]]) == 4 else "generic")
+        if len(ALPHA[case["alpha"]]) < 4:
+            cl.append("alphabet-of-fewer-than-four-letters")
         if case.get("k", 0) >= 16:
             cl.append("k>=16")
     nontrivial = len(rows) >= 2 and any(len(r) < w for r in rows) and any(len(r) >= w for r in rows)
